@@ -233,9 +233,13 @@ Print Assumptions c03_local_fifo.
 (* -- goroutines sending concurrently on one connection (Net/SendConc.v) ---------------------------
    A small-step system: one action = Lock, Marshal, the header Write, ONE Write
    call of the body loop taking any number of bytes the schedule chooses, the
-   counter update, Unlock.  [run msh true sched (init progs) = Some s]: the
+   counter update, Unlock.  [run msh true fx sched (init progs) = Some s]: the
    schedule [sched] (any interleaving, any chunking) is executable with the
-   mutex from the state in which goroutine i still has to send [progs i]. *)
+   mutex from the state in which goroutine i still has to send [progs i].
+   [fx] = fix_n1: false is the code as it is (a failed Write leaves the
+   connection usable: finding C03-N1), true the code with
+   proposed_fixes/C03-N1.diff (Send closes the connection when sendRaw fails).
+   Theorems quantified over [fx] hold for both. *)
 
 (* (1) general form, every reachable state, failures included: the wire is the
    bytes of the finished calls in the order in which they held the lock, then
@@ -243,8 +247,8 @@ Print Assumptions c03_local_fifo.
    one frame, a call that returned an error a strict prefix of its frame;
    Tx is the sum of what the calls returned; program order per goroutine *)
 Theorem c03_concurrent_senders_wire :
-  forall (V : Type) (msh : V -> option bytes) progs sched (s : state V),
-  run msh true sched (init progs) = Some s ->
+  forall (V : Type) (msh : V -> option bytes) fx progs sched (s : state V),
+  run msh true fx sched (init progs) = Some s ->
   wire s = concat (map c_bytes (done s)) ++ held V s (fun _ p => cur_w V p) [] /\
   acq s = map (key V) (done s) ++ held V s (cur_call V) [] /\
   tx s = sumN (map c_ret (done s)) + held V s (fun _ p => cur_tx V p) 0 /\
@@ -256,10 +260,10 @@ Print Assumptions c03_concurrent_senders_wire.
 (* (1) no Write fails, nobody is inside Send: the wire is whole frames, one per
    call, in lock-acquisition order; Tx = sum of the frame sizes *)
 Theorem c03_concurrent_senders_stream :
-  forall (V : Type) (msh : V -> option bytes) (good : V -> Prop) progs sched (s : state V),
+  forall (V : Type) (msh : V -> option bytes) fx (good : V -> Prop) progs sched (s : state V),
   small_bufs msh -> (forall i v, In v (progs i) -> good v) -> (forall v, good v -> msh v <> None) ->
   forallb (fun ia => negb (is_fail (snd ia))) sched = true ->
-  run msh true sched (init progs) = Some s -> holder s = None ->
+  run msh true fx sched (init progs) = Some s -> holder s = None ->
   exists bs,
     Forall2 (fun kv b => msh (snd kv) = Some b) (acq s) bs /\
     wire s = stream bs /\
@@ -272,9 +276,9 @@ Print Assumptions c03_concurrent_senders_stream.
    is through, the calls are each goroutine's program in its order and together
    a permutation of everything there was to send *)
 Theorem c03_concurrent_senders_merge :
-  forall (V : Type) (msh : V -> option bytes) progs sched mx (s : state V) k,
+  forall (V : Type) (msh : V -> option bytes) fx progs sched mx (s : state V) k,
   (forall i, (k <= i)%nat -> progs i = []) ->
-  run msh mx sched (init progs) = Some s -> (forall i, todo (thr s i) = []) ->
+  run msh mx fx sched (init progs) = Some s -> (forall i, todo (thr s i) = []) ->
   (forall i, proj i (acq s) = progs i) /\
   Permutation (map snd (acq s)) (concat (map progs (seq 0 k))).
 Proof. exact finished_is_merge. Qed.
@@ -285,14 +289,14 @@ Print Assumptions c03_concurrent_senders_merge.
    values sent, each once, in lock order, each goroutine's in its order *)
 Theorem c03_concurrent_senders_delivery :
   forall (V T : Type) (type_of : V -> T) (tid_of : T -> bytes) (registry : bytes -> option T)
-         (enc : V -> option bytes) (dec : T -> bytes -> option V)
+         (enc : V -> option bytes) (dec : T -> bytes -> option V) fx
          progs k sched (s : state V) fix_f04 limit segs,
   tid_16 T tid_of -> codec_roundtrip V T type_of enc dec ->
   limit < 4294967296 ->
   (forall i, (k <= i)%nat -> progs i = []) ->
   (forall i v, In v (progs i) -> sendable V T type_of tid_of registry enc limit v) ->
   no_fail sched = true ->
-  run (marshal type_of tid_of registry enc) true sched (init progs) = Some s ->
+  run (marshal type_of tid_of registry enc) true fx sched (init progs) = Some s ->
   (forall i, todo (thr s i) = []) -> holder s = None ->
   concat segs = wire s ->
   handle_all registry dec fix_f04 limit segs =
@@ -308,7 +312,7 @@ Print Assumptions c03_concurrent_senders_delivery.
    which both Send calls return nil and the receiver dispatches neither message *)
 Theorem c03_concurrent_senders_nomutex_refuted :
   exists s,
-    ConcWitness.final false ConcWitness.sched_nomutex = Some s /\
+    ConcWitness.final false false ConcWitness.sched_nomutex = Some s /\
     (forall i, todo (thr s i) = []) /\ (forall c, In c (done s) -> c_ok c = true) /\
     tx s = 42 /\
     Witness.w_handle false Witness.limit [wire s] = ([], FinEnd true) /\
@@ -323,12 +327,12 @@ Print Assumptions c03_concurrent_senders_nomutex_refuted.
    receiver ends inside a header / body (EOF or read deadline) *)
 Theorem c03_concurrent_senders_failure_last :
   forall (V T : Type) (type_of : V -> T) (tid_of : T -> bytes) (registry : bytes -> option T)
-         (enc : V -> option bytes) (dec : T -> bytes -> option V)
+         (enc : V -> option bytes) (dec : T -> bytes -> option V) fx
          progs sched (s : state V) fix_f04 limit segs cs c b,
   limit < 4294967296 ->
-  (forall v b, marshal type_of tid_of registry enc v = Some b -> lenN b <= limit) ->
-  run (marshal type_of tid_of registry enc) true sched (init progs) = Some s -> holder s = None ->
+  run (marshal type_of tid_of registry enc) true fx sched (init progs) = Some s -> holder s = None ->
   done s = cs ++ [c] -> (forall c', In c' cs -> c_ok c' = true) -> c_ok c = false ->
+  (forall c' b', In c' (cs ++ [c]) -> marshal type_of tid_of registry enc (c_val c') = Some b' -> lenN b' <= limit) ->
   marshal type_of tid_of registry enc (c_val c) = Some b ->
   concat segs = wire s ->
   exists bs m,
@@ -339,11 +343,14 @@ Theorem c03_concurrent_senders_failure_last :
 Proof. exact mutex_failure_last. Qed.
 Print Assumptions c03_concurrent_senders_failure_last.
 
-(* (4) ... but Send leaves the connection usable after the failure: the next
-   Send on it returns nil and its message is never dispatched *)
+(* (4) FINDING C03-N1, the code as it is (fx = false): Send leaves the
+   connection usable after the failure: the next Send on it returns nil and its
+   message is never dispatched ("silently lost while sends keep reporting
+   success").  Reproduced on the real TCPConn by the harness classes
+   *-write-fails-then-send; findings/C03.jsonl, proposed_fixes/C03-N1.diff. *)
 Theorem c03_concurrent_senders_failure_refuted :
   exists s c0 c1,
-    ConcWitness.final true ConcWitness.sched_failure = Some s /\ done s = [c0; c1] /\
+    ConcWitness.final true false ConcWitness.sched_failure = Some s /\ done s = [c0; c1] /\
     c_who c0 = 0%nat /\ c_ok c0 = false /\ c_ret c0 = 4 /\
     c_who c1 = 1%nat /\ c_ok c1 = true /\ c_bytes c1 = send_raw (Witness.m x42) /\
     Witness.w_handle false Witness.limit [wire s] = ([], FinEnd true) /\
@@ -351,9 +358,48 @@ Theorem c03_concurrent_senders_failure_refuted :
 Proof. exact failure_then_send_refuted. Qed.
 Print Assumptions c03_concurrent_senders_failure_refuted.
 
+(* C03-N1 REPAIRED (fx = true), every schedule: once a Send has failed in a
+   Write (the connection is closed by it) and nobody is inside Send, whatever
+   any goroutines try on that connection afterwards puts no byte on the wire,
+   leaves Tx alone, and every call returns an error.  With
+   c03_concurrent_senders_failure_last (what the receiver makes of the stream
+   that ends in the broken frame) no Send reports success for a message that is
+   not dispatched. *)
+Theorem c03_concurrent_senders_failure_fixed :
+  forall (V : Type) (msh : V -> option bytes) progs sched1 (s1 : state V) sched2 s2,
+  run msh true true sched1 (init progs) = Some s1 -> holder s1 = None -> broken s1 = true ->
+  run msh true true sched2 s1 = Some s2 ->
+  wire s2 = wire s1 /\ tx s2 = tx s1 /\
+  exists extra, done s2 = done s1 ++ extra /\ forall c, In c extra -> c_ok c = false.
+Proof. exact n1_fixed_dead. Qed.
+Print Assumptions c03_concurrent_senders_failure_fixed.
+
+(* the connection is closed exactly by a failing Write: *)
+Theorem c03_concurrent_senders_broken_iff_failed :
+  forall (V : Type) (msh : V -> option bytes),
+  (forall mx s i n s',
+     (step msh mx true s (i, AWriteFail n) = Some s' \/ step msh mx true s (i, AHeaderFail n) = Some s') ->
+     broken s' = true) /\
+  (forall mx fx sched (s s' : state V),
+     no_fail sched = true -> run msh mx fx sched s = Some s' -> broken s' = broken s).
+Proof. intros V msh. split; [exact (failure_breaks V msh)|exact (unbroken V msh)]. Qed.
+Print Assumptions c03_concurrent_senders_broken_iff_failed.
+
+(* the failure history of c03_concurrent_senders_failure_refuted with the
+   repair: goroutine 1 gets an error, nothing is lost silently; and an instance
+   of the hypotheses of c03_concurrent_senders_failure_last *)
+Example c03_concurrent_senders_failure_fixed_example :
+  ConcWitness.final true true ConcWitness.sched_failure = None /\
+  exists s c0 c1,
+    ConcWitness.final true true ConcWitness.sched_failure_fixed = Some s /\ done s = [c0; c1] /\
+    c_ok c0 = false /\ c_ok c1 = false /\ c_bytes c1 = [] /\ broken s = true /\
+    Witness.w_handle false Witness.limit [wire s] = ([], FinEnd true).
+Proof. exact failure_then_send_fixed. Qed.
+Print Assumptions c03_concurrent_senders_failure_fixed_example.
+
 Example c03_concurrent_senders_example :
-  ConcWitness.final true ConcWitness.sched_nomutex = None /\
-  exists s, ConcWitness.final true (whole_send 1 17 ++ whole_send 0 17) = Some s /\
+  ConcWitness.final true false ConcWitness.sched_nomutex = None /\
+  exists s, ConcWitness.final true false (whole_send 1 17 ++ whole_send 0 17) = Some s /\
             Witness.w_handle false Witness.limit [wire s] =
               ([(Witness.id0, [x42]); (Witness.id0, [x41])], FinEnd false).
 Proof. exact mutex_same_schedule_blocked. Qed.
